@@ -31,6 +31,10 @@ type InterleaveScenario struct {
 	Model     *refts.Model `json:"model"`
 	AltMerges [][]int      `json:"alt_merges,omitempty"`
 	Inserts   []Insertion  `json:"inserts,omitempty"`
+	// PauseAt > 0: the insertion experiment is repeated on a growing source: the reader reports
+	// io.EOF once right before base packet PauseAt (behind whatever was inserted there) and then
+	// carries on, the caller polling again; with and without the inserted packets.
+	PauseAt int `json:"pause_at,omitempty"`
 	Corrupt   *Corruption  `json:"corrupt,omitempty"`
 	// AllMerges: enumerate EVERY order-preserving merge of the per-PID queues (tiny models of
 	// independent PIDs only; bounded-exhaustive part of the schedule space).
@@ -61,10 +65,10 @@ func (interleave) Runs(tier string) int64 {
 
 func (interleave) Meta() core.EngineMeta {
 	return core.EngineMeta{
-		Rule:       "One run in five takes a tiny model of independent PIDs (2-3 streams, at most 9 packets) and executes EVERY order-preserving merge of its queues (bounded-exhaustive). Otherwise per-PID packet queues of a reference stream model are merged by the multiplex scheduler under the model's schedule and 2-3 further seeded order-preserving schedules (uniform, bursty, starvation, reverse priority; PAT and PMT PIDs keep their relative order), each PID is also demuxed alone (PMT PIDs together with PID 0), null / adaptation-only / transport-error packets are inserted at seeded positions, and one non-PAT PID is corrupted (payload garbage and/or packet loss). Per PID the delivered sequence must be identical in every variant. evaluations = demux executions; distinct = abstract fingerprint (stream-kind multiset, schedule modes, insertion kinds, corruption mode and kind of the corrupted PID); non-trivial = at least two PIDs.",
+		Rule:       "One run in five takes a tiny model of independent PIDs (2-3 streams, at most 9 packets) and executes EVERY order-preserving merge of its queues (bounded-exhaustive). Otherwise per-PID packet queues of a reference stream model are merged by the multiplex scheduler under the model's schedule and 2-3 further seeded order-preserving schedules (uniform, bursty, starvation, reverse priority; PAT and PMT PIDs keep their relative order), each PID is also demuxed alone (PMT PIDs together with PID 0), null / adaptation-only / transport-error packets are inserted at seeded positions, and one non-PAT PID is corrupted (payload garbage and/or packet loss). Per PID the delivered sequence must be identical in every variant. evaluations = demux executions; distinct = abstract fingerprint (stream-kind multiset, schedule modes, insertion kinds, corruption mode and kind of the corrupted PID); non-trivial = at least two PIDs. A third of the insertion experiments are repeated on a growing source: the reader reports io.EOF once in front of a base packet (behind whatever was inserted there) and carries on, the caller polling again after ErrNoMorePackets; the per-PID output with the inserted packets must equal the output without them on the same paused reader.",
 		Real:       []string{"astits.Demuxer and everything below it (incl. the package-level sync.Pool)"},
 		Stub:       []string{"refts reference multiplexer", "multiplex scheduler", "PacketChannel (insertions, single-PID corruption)", "SimReader (fault-free)"},
-		FaultKinds: []string{"all-merges", "reschedule", "solo", "insert-null", "insert-afonly", "insert-tei", "corrupt-garbage", "corrupt-drop"},
+		FaultKinds: []string{"all-merges", "reschedule", "solo", "reader-eof-pause", "insert-null", "insert-afonly", "insert-tei", "corrupt-garbage", "corrupt-drop"},
 		Assumptions: []string{
 			"schedules preserve each PID's packet order and the relative order of PID 0 and PMT PIDs (a PMT PID is only recognised after a PAT listing it was delivered)",
 			"errors returned by NextData are skipped when comparing (a corrupted PID or a transport-error packet with a garbage adaptation field may produce them); nothing across PIDs is compared",
@@ -213,6 +217,12 @@ func (interleave) Generate(r *core.PRNG, tier string, idx int64) any {
 		}
 		sc.Inserts = append(sc.Inserts, in)
 	}
+	if ni > 0 && len(base) > 1 && r.Chance(1, 3) {
+		sc.PauseAt = r.Range(1, len(base)-1)
+		if r.Chance(1, 2) {
+			sc.Inserts[0].At = sc.PauseAt // something neutral right in front of the pause
+		}
+	}
 	if r.Chance(1, 3) {
 		for n := r.Range(1, 2); n > 0; n-- {
 			si := r.Intn(len(b.PerStream))
@@ -307,6 +317,23 @@ func perPIDFull(pk [][]byte, log *core.Log) map[uint16][]string {
 		}
 	}
 	return out
+}
+
+// perPIDPaused: like perPIDFull on a reader that reports io.EOF once in front of packet `at`
+// and then carries on; the caller polls again after the first ErrNoMorePackets.
+func perPIDPaused(pk [][]byte, at int, log *core.Log) (map[uint16][]string, int) {
+	cfg := DemuxCfg{PacketSize: 188, Reader: world.ReaderPlan{Kind: "seekable", EOFPauses: []int{at * 188}}}
+	r, sr := world.NewReader(refts.Join(pk), cfg.Reader, log)
+	dmx := newDemuxer(r, cfg)
+	out := map[uint16][]string{}
+	for round := 0; round < 3; round++ {
+		for _, x := range pullData(dmx, sr, log, len(pk)*4+16) {
+			if x.D != nil {
+				out[x.D.PID] = append(out[x.D.PID], core.Dump(x.D))
+			}
+		}
+	}
+	return out, sr.PauseN
 }
 
 func seqEq(a, b []string) (bool, string) {
@@ -476,6 +503,26 @@ func (interleave) Execute(scAny any, keepLog bool) *core.Outcome {
 		got := perPIDFull(pk, out.Log)
 		out.Evals++
 		compare("insertion", "", got, nil, -1)
+		if pa := sc.PauseAt; pa > 0 && pa < len(b.Packets) {
+			// the same on a source that reports end of file once in front of base packet pa
+			npa := pa
+			for _, in := range ins {
+				if in.At <= pa {
+					npa++
+				}
+			}
+			bp, n1 := perPIDPaused(b.Packets, pa, nil)
+			gp, n2 := perPIDPaused(pk, npa, out.Log)
+			if n1 > 0 && n2 > 0 {
+				out.Fire("reader-eof-pause")
+				out.Evals++
+				saved := base
+				base = bp
+				compare("insertion", "eof-pause-", gp, nil, -1)
+				base = saved
+				fp += "P"
+			}
+		}
 	}
 	// 4. corruption confined to one PID
 	if c := sc.Corrupt; c != nil && c.Stream >= 0 && c.Stream < len(m.Streams) && m.Streams[c.Stream].Kind != "PAT" {
